@@ -25,8 +25,9 @@ def assume_margin(x):
 # string-prefix queues: rows take their keys from a concrete pool (symbolic choice, presence, values, expiry); the pool holds
 # members of several queues, near misses of the key range and ordinary keys
 QPOOL = ['a-499999999999999', 'a-500000000000000', 'a-500000000000001', 'ab-500000000000000', 'a', 'a-', 'a.5', 'b-500000000000000',
-         'a-b-500000000000000', 'a-b-500000000000001', 500000000000000, 'A-500000000000000', 'a-b', 'a,500000000000000', '-500000000000000', '-499999999999999', '', 'q5-500000000000000', 'q5-500000000000001', '4x-499999999999999']
-PREFIXES = ['a', 'a-b', 'b', 'ab', '', 'q5', '4x']  # incl. prefixes that share characters with the 15-digit counter
+         'a-b-500000000000000', 'a-b-500000000000001', 500000000000000, 'A-500000000000000', 'a-b', 'a,500000000000000', '-500000000000000', '-499999999999999', '', 'q5-500000000000000', 'q5-500000000000001', '4x-499999999999999',
+         '{0}-500000000000000', '{0}-499999999999999', '500000000000000-500000000000000']
+PREFIXES = ['a', 'a-b', 'b', 'ab', '', 'q5', '4x', '{0}']  # incl. prefixes that share characters with the 15-digit counter or look like a format field
 
 
 def is_member(k, prefix):
@@ -245,7 +246,7 @@ def jobs(tier):
         nm = 'push_file' + ''.join('.%s=%s' % kv for kv in sorted(extra.items()))
         F_ = FUNCS['ob_push_file']
         out.append(dict(id=nm + '.busy.noretry', func='ob_push_file', params=dict(N=1, busy=1, **extra), tags=['C14', 'C08'], functions=F_, weight=2, must_reach=['timeout_raised']))
-        out.append(dict(id=nm + '.busy.retry', func='ob_push_file', params=dict(N=1, busy=1, retry=True, **extra), tags=['C14'], functions=F_, weight=6, must_reach=['lock_busy'], all_clauses=True))
+        out.append(dict(id=nm + '.busy.retry', func='ob_push_file', params=dict(N=1, busy=1, retry=True, **extra), tags=['C14', 'C10', 'C01'], functions=F_, weight=6, must_reach=['lock_busy'], all_clauses=True))
         out.append(dict(id=nm + '.fault', func='ob_push_file', params=dict(N=1, fault=True, **extra), tags=['C08'], functions=F_, weight=10, only_tags=['C08', 'FAULT']))
         out.append(dict(id=nm + '.kill', func='ob_push_file', params=dict(N=1, crash=True, **extra), tags=['C07'], functions=F_, weight=20, must_reach=['crashed']))
     for func, P in (('ob_push', dict(side='back', policy='least-recently-stored')), ('ob_pull', dict(side='front', peek=False)), ('ob_pull', dict(side='front', peek=True))):
